@@ -18,6 +18,27 @@ from .common import RuleCtx, _short, split_at_loop, stored_names, range_args, lo
 C = Rat.const
 
 
+def dtype_guard(rc: RuleCtx, rule: str, modules):
+    """No detector stores a float-valued expression into an array whose dtype is inherited from its argument
+    (np.zeros_like(points[:, 0]), points.copy(), ...): with an integer curve the stored curvatures / distances are truncated
+    and the arg-optimum is taken over the wrong values."""
+    from ..mutation import MutationAnalysis
+    res = rc.res
+    ma = MutationAnalysis(rc.ctx.repo, rc.ctx.linker)
+    n = 0
+    for q, fi in sorted(ma.funcs.items()):
+        if fi.module.short not in modules:
+            continue
+        n += 1
+        for e in ma.events.get(q, []):
+            if e.kind == "dtype":
+                res.violation(rule, fi.module, fi.name, e.node,
+                              f"{q} stores a float value into an array that inherits the dtype of '{e.param}' ({e.how}): on an integer-typed curve the values are "
+                              "truncated before the optimum is taken", ast.unparse(e.node)[:100] if hasattr(e.node, "lineno") else "",
+                              "a float array (np.zeros(n), a list)", construct=f"dtype {q}")
+    res.ok(rule, "detectors:dtype", f"{n} functions: no float store into an argument-typed array")
+
+
 def _at(x, i):
     return anf.opaque("at", x, i, array=False)
 
